@@ -79,7 +79,7 @@ NAMES = sorted(CAT)
 def case_st(draw, name=None):
     name = name or draw(st.sampled_from(NAMES))
     cls, form = CAT[name]
-    dt = draw(st.sampled_from(vs.DTYPES))
+    dt = draw(st.sampled_from(vs.DTYPES + vs.DTYPES + ["complex128"]))
     two_d = draw(st.booleans())
     shape = [draw(st.integers(1, 4)), draw(st.integers(1, 4))] if two_d else [draw(st.integers(1, 6))]
     ua, ub, rel = draw(vs.unit_pairs())
